@@ -306,6 +306,19 @@ func lookupReviewed(exact map[string]Reviewed, all []Reviewed, key string) (Revi
 	if rv, ok := exact[key]; ok {
 		return rv, true
 	}
+	// an entry whose key starts with "*." holds for the same obligation under any property's
+	// engine-B rule (the obligation is a fact about the function, not about the property)
+	if i := strings.Index(key, "."); i > 0 {
+		star := "*" + key[i:]
+		if rv, ok := exact[star]; ok {
+			return rv, true
+		}
+		if key[0] != '*' {
+			if rv, ok := lookupReviewed(exact, all, star); ok {
+				return rv, true
+			}
+		}
+	}
 	for _, rv := range all {
 		// keys of requirements that fail at a caller ("...@caller") always need an exact entry
 		if strings.HasSuffix(rv.Key, "|*") && strings.Count(rv.Key, "|") == 2 && !strings.Contains(key, "@") && strings.HasPrefix(key, strings.TrimSuffix(rv.Key, "*")) {
